@@ -56,6 +56,8 @@ def exec_nl(rec):
     kind = rec['mesh']['kind']
     attrs = ('value', 'grad') if rec.get('grad') else ('value',)
     R, mode = rec['R'], rec['mode']
+    Ri = rec.get('R_im')                 # complex-valued form R + i R_im (complex source / absorption / impedance terms)
+    cdtype = np.complex128 if Ri else np.float64
     prm = {'alpha': rec['alpha']}
     forms = {}
     kw = {f['name']: np.array(f['val'], dtype=np.float64) for f in rec['fields'] if f['kind'] == 'val'}
@@ -82,39 +84,58 @@ def exec_nl(rec):
                 fs[f['name']] = pi['s']
         accs = {'u': acc, 'v': acc, 'f': facc}
         nf = len(basis.basis[0])
-        S = fem.term_scale(R, B['sphi'], B['sphi'], fs) * B['sdx']
         if 'nl' not in forms:
             if mode == 'hessian':
                 def energy(*args):
-                    return fem.ev_term(R, args[:-1], None, args[-1], accs)
-                forms['nl'] = NonlinearForm(energy, hessian=True)
+                    out = fem.ev_term(R, args[:-1], None, args[-1], accs)
+                    return out + 1j * fem.ev_term(Ri, args[:-1], None, args[-1], accs) if Ri else out
+                forms['nl'] = NonlinearForm(energy, hessian=True, dtype=cdtype)
             else:
-                forms['nl'] = NonlinearForm(fem.bilinear_callable(R, accs, nf))
+                forms['nl'] = NonlinearForm(fem.bilinear_callable(R, accs, nf, Ri), dtype=cdtype)
             if rec.get('lin'):
-                Ra, Rl = _split_linear(R)
-                forms['a'] = BilinearForm(fem.bilinear_callable(Ra, accs, nf))
-                forms['l'] = LinearForm(fem.linear_callable(Rl, accs)) if Rl is not None else None
+                forms['al'] = []
+                for term in ((R, Ri) if Ri else (R,)):
+                    Ra, Rl = _split_linear(term)
+                    forms['al'].append((BilinearForm(fem.bilinear_callable(Ra, accs, nf)) if Ra is not None else None,
+                                        LinearForm(fem.linear_callable(Rl, accs)) if Rl is not None else None))
         xin = [int(v) for v in x]                      # the contents of x at the time of the call
-        J, rhs = forms['nl'].assemble(basis, x=x, **dict(kw), **prm)
-        ok = True
-        trip, o = fem.csr_trip(J, S)
-        ok &= o
-        r = _ints(np.asarray(rhs), S)
-        ok &= r is not None
-        ev = {'a': 'NL', 'err': '', 'exact': 1, 'mode': mode, 'B': B, 'env': {'fld': fenv, 'prm': prm}, 'R': R, 'S': int(S),
-              'x': xin, 'J': {'shape': [int(s) for s in J.shape], 'trip': trip}, 'rhs': r or [],
-              'lin': 0, 'A': {'shape': [0, 0], 'trip': []}, 'b': [], 'tags': tags}
-        if rec.get('lin'):
-            A = forms['a'].assemble(basis, **dict(kw), **prm)
-            b = forms['l'].assemble(basis, **dict(kw), **prm) if forms['l'] is not None else basis.zeros()
-            tA, o = fem.csr_trip(A, S)
+        if rec.get('x_absent'):                        # default linearisation point
+            J, rhs = forms['nl'].assemble(basis, **dict(kw), **prm)
+        else:
+            J, rhs = forms['nl'].assemble(basis, x=x, **dict(kw), **prm)
+        events = []
+        # a complex form is judged part by part: (R, Re J, Re rhs) and (R_im, Im J, Im rhs)
+        for pk, (term, part) in enumerate(((R, np.real), (Ri, np.imag)) if Ri else ((R, np.real),)):
+            S = fem.term_scale(term, B['sphi'], B['sphi'], fs) * B['sdx']
+            ok = True
+            Jp = J.tocsr().copy()
+            Jp.data = part(Jp.data).astype(np.float64)
+            trip, o = fem.csr_trip(Jp, S)
             ok &= o
-            fem.guard_sum([t[2] for t in tA], int(np.abs(x).max()) if len(x) else 0)
-            bi = _ints(b, S)
-            ok &= bi is not None
-            ev.update(lin=1, A={'shape': [int(s) for s in A.shape], 'trip': tA}, b=bi or [])
-        ev['exact'] = 1 if ok else 0
-        return ev
+            r = _ints(part(np.asarray(rhs)), S)
+            ok &= r is not None
+            if not Ri and np.iscomplexobj(rhs):
+                ok = False
+            ev = {'a': 'NL', 'err': '', 'exact': 1, 'mode': mode, 'B': B, 'env': {'fld': fenv, 'prm': prm}, 'R': term, 'S': int(S),
+                  'x': xin, 'J': {'shape': [int(s) for s in J.shape], 'trip': trip}, 'rhs': r or [],
+                  'lin': 0, 'A': {'shape': [0, 0], 'trip': []}, 'b': [], 'tags': dict(tags, part='im' if pk else 're')}
+            if rec.get('lin'):
+                fa, fl = forms['al'][pk]
+                if fa is not None:
+                    A = fa.assemble(basis, **dict(kw), **prm)
+                    tA, o = fem.csr_trip(A, S)
+                    ok &= o
+                    shp = [int(s) for s in A.shape]
+                else:
+                    tA, shp = [], [int(s) for s in J.shape]
+                b = fl.assemble(basis, **dict(kw), **prm) if fl is not None else basis.zeros()
+                fem.guard_sum([t[2] for t in tA], int(np.abs(x).max()) if len(x) else 0)
+                bi = _ints(b, S)
+                ok &= bi is not None
+                ev.update(lin=1, A={'shape': shp, 'trip': tA}, b=bi or [])
+            ev['exact'] = 1 if ok else 0
+            events.append(ev)
+        return events
 
     state = {}
 
@@ -133,16 +154,16 @@ def exec_nl(rec):
                 else:
                     x[:] = xn
             return one_call(state[which], x, {'step': step, 'reuse': reuse})
-        ev, err = guarded(go, 120)
+        evs, err = guarded(go, 120)
         if err == 'TooLarge':
             raise fem.TooLarge()
-        return ev if not err else {'a': 'NL', 'err': err, 'tags': {'step': step, 'reuse': reuse}}
+        return evs if not err else [{'a': 'NL', 'err': err, 'tags': {'step': step, 'reuse': reuse}}]
     try:
-        events = [call('bs', 0, 0)]
+        events = call('bs', 0, 0)
         for k in range(1, len(rec.get('xs', [])) + 1):
-            events.append(call('bs', k, 0))
+            events += call('bs', k, 0)
         if rec.get('bs2'):
-            events.append(call('bs2', 0, 1))
+            events += call('bs2', 0, 1)
     except fem.TooLarge:
         return []
     return events
@@ -225,12 +246,25 @@ def gen_nl(rng):
     rec = {'driver': 'nl', 'mesh': mrec, 'bs': bs, 'grad': grad, 'fields': fields, 'alpha': int(rng.choice([-2, 2, 3])),
            'R': R, 'mode': 'residual' if mode == 'linear' else mode, 'lin': int(mode == 'linear'),
            'x': [int(v) for v in rng.integers(-2, 3, size=basis.N)] if rng.integers(0, 6) else [0] * basis.N}
-    if rng.integers(0, 2):
+    if rng.integers(0, 3) == 0:
+        # complex-valued form: imaginary part with its own (source / absorption / nonlinear) terms
+        ssi = []
+        for it in range(int(rng.integers(1, 3))):
+            nu_ = int(rng.integers(0, 2)) if mode == 'linear' else int(rng.integers(1 if mode == 'hessian' else 0, maxdeg + 1))
+            fac = fem.gen_coef(rng, avail, ['alpha'], allow_two=False) + [['u', int(rng.integers(1, nc + 1))] for _ in range(nu_)]
+            if mode != 'hessian':
+                fac.append(['v', int(rng.integers(1, nc + 1))])
+            ssi.append(fem._mul([fac[j] for j in rng.permutation(len(fac))]))
+        rec['R_im'] = fem._add(ssi)
+    if rng.integers(0, 8) == 0:
+        rec['x'] = [0] * basis.N
+        rec['x_absent'] = 1
+    elif rng.integers(0, 2):
         rec['xs'] = [[int(v) for v in rng.integers(-2, 3, size=basis.N)] for _ in range(int(rng.integers(1, 3)))]
     if reuse:
         rec['bs2'] = dict(bs, **alt)
     return rec, {'a': 'NL', 'kind': kind, 'btype': btype, 'elem': fem.elem_name(spec), 'mode': mode, 'tier': 'exact',
-                 'reuse': int(reuse), 'hist': len(rec.get('xs', []))}
+                 'reuse': int(reuse), 'hist': len(rec.get('xs', [])), 'complex': int('R_im' in rec)}
 
 
 # ------------------------------------------------------------------------------------------ helpers
